@@ -179,14 +179,18 @@ def attrReadOwn (strict : Bool) (a : AttrD) (t : Tok) : Sev × Val :=
     | .star => (.warning, .null)       -- not a pre-check case; the literal readers reject `*` (not used by C15's inputs)
     | .lit v s => (s, v)
 
-/-- `STEPattribute::STEPread`: a redeclared position forwards to its redefining attribute FIRST (before the derived and
-    the null checks), handing it `redefStrict`; the instance then looks at the error of the redeclared position itself,
-    which carries what the redefining attribute found only when `redefReportsError` -/
-def attrRead (strict : Bool) (a : AttrD) (t : Tok) : Sev × Val :=
+/-- `STEPattribute::STEPread` with the shape of the `_redefAttr` block as parameters: a redeclared position forwards to its
+    redefining attribute FIRST (before the derived and the null checks), handing it `rstrict` (`none` = the caller's flag);
+    the instance then looks at the error of the redeclared position itself, which carries what the redefining attribute
+    found only when `reports` -/
+def attrReadR (reports : Bool) (rstrict : Option Bool) (strict : Bool) (a : AttrD) (t : Tok) : Sev × Val :=
   if a.redef then
-    let r := attrReadOwn (match redefStrict with | none => strict | some b => b) { a with redef := false, derived := false } t
-    if redefReportsError then r else (.null, r.2)
+    let r := attrReadOwn (match rstrict with | none => strict | some b => b) { a with redef := false, derived := false } t
+    if reports then r else (.null, r.2)
   else attrReadOwn strict a t
+
+/-- `STEPattribute::STEPread` of the code at hand (`Generated.redefReportsError`, `Generated.redefStrict`) -/
+def attrRead (strict : Bool) (a : AttrD) (t : Tok) : Sev × Val := attrReadR redefReportsError redefStrict strict a t
 
 /-- merge step of `SDAI_Application_instance::STEPread` -/
 def mergeAttr (acc s : Sev) : Sev := if s.le sevAttrMergeThreshold then Sev.greater acc s else acc
@@ -203,6 +207,55 @@ def instReadAux (strict : Bool) : Sev → List AttrD → List Tok → Sev × Lis
   | acc, _, _ => (acc, [])
 
 def instRead (strict : Bool) (as : List AttrD) (ts : List Tok) : Sev × List Val := instReadAux strict .null as ts
+
+/-! ### the read loop of `SDAI_Application_instance::STEPread` with redefining attributes (technical-corrigendum encoding)
+
+The C++ attribute list of an entity that redeclares inherited attributes is: inherited positions, then one *redefining*
+attribute per redeclaration, then the entity's own attributes.  A redefining attribute has no value in the file; the
+loop only peeks: when the next character is `)` (the last value was left out) it consumes it.  After any `)` the
+look-ahead reports "Missing attribute value[s]" if a non-redefining attribute is still to come — examining every
+`step`-th remaining entry (`Generated.lookAheadStep`). -/
+
+inductive Slot where
+  | attr (a : AttrD)
+  | redefining
+  deriving DecidableEq, Repr, Inhabited
+
+def Slot.isAttr : Slot → Bool | .attr _ => true | .redefining => false
+
+/-- the entries the look-ahead examines: the first, then every `step`-th (`i++` once per entry examined and `step - 1`
+    more times before the next test); `skip` = entries still to step over -/
+def everyNthAux (step : Nat) : Nat → List Slot → List Slot
+  | _, [] => []
+  | 0, x :: xs => x :: everyNthAux step (step - 1) xs
+  | k + 1, _ :: xs => everyNthAux step k xs
+
+def everyNth (step : Nat) (l : List Slot) : List Slot := everyNthAux step 0 l
+
+def lookAheadR (step : Nat) (acc : Sev) (rest : List Slot) : Sev :=
+  if (everyNth step rest).any Slot.isAttr then Sev.greater acc sevMissingTrailing else acc
+
+/-- values of the attributes that were never reached -/
+def unreadVals (rest : List Slot) : List Val := (rest.filter Slot.isAttr).map (fun _ => Val.null)
+
+/-- the loop: (instance severity, value per non-redefining attribute).  `ts` is what is left of the parameter list; the
+    last token is the one followed by `)` -/
+def loopReadR (step : Nat) (strict : Bool) : Sev → List Slot → List Tok → Sev × List Val
+  | acc, [], [] => (acc, [])
+  | acc, [], _ :: _ => (Sev.greater acc .inputError, [])          -- "No more attributes were expected"
+  | acc, .redefining :: es, ts =>
+    match ts with
+    | [.missing false] => (lookAheadR step acc es, unreadVals es)   -- the `)` of a left-out last value is consumed here
+    | _ => loopReadR step strict acc es ts
+  | acc, .attr _ :: es, [] => (acc, Val.null :: unreadVals es)      -- not reachable from a parameter list (the loop returns at `)`)
+  | acc, .attr a :: es, t :: ts =>
+    let (s, v) := attrRead (attrStrict strict) a t
+    let acc' := mergeAttr acc s
+    match ts with
+    | [] => (lookAheadR step acc' es, v :: unreadVals es)          -- the delimiter read after the value was `)`
+    | _ => let (s', vs) := loopReadR step strict acc' es ts; (s', v :: vs)
+
+def loopRead (strict : Bool) (es : List Slot) (ts : List Tok) : Sev × List Val := loopReadR lookAheadStep strict .null es ts
 
 /-- `strict` as received by the parts of a complex instance -/
 def partStrict (fileStrict : Bool) : Bool := match complexPartStrict with | none => fileStrict | some b => b
